@@ -214,6 +214,21 @@ func (c xcase) call(src *tx.Src) (got int, err error) {
 				got = len(p)
 			}
 		}
+	case "ControlHandler(unchecked)":
+		// ControlHandler's doc calls checking the header optional ("optionally
+		// check its validity via ws.CheckHeader()"): here it is not checked.
+		// The handler gets the payload bytes that follow the header.
+		hl := len(src.Data) - c.delivered()
+		if c.Length < int64(c.delivered()) {
+			hl = len(src.Data) - int(c.Length)
+		}
+		v, h, _ := ref.DecodeHeader(src.Data[hl-c.headerLen():])
+		if v != ref.OK && v != ref.NonMinimal {
+			return 0, fmt.Errorf("harness: cannot decode own header")
+		}
+		psrc := tx.NewSrc(src.Data[hl:], nil)
+		err = wsutil.ControlHandler{Src: psrc, Dst: tx.NewRec(), State: st}.Handle(toWS(h))
+		src.Pos, src.Reads = psrc.Pos, psrc.Reads
 	case "SkipCheck+ReadAll", "SkipCheck+Discard":
 		// SkipHeaderCheck is a documented option: nothing vets the headers,
 		// the reader still has to stream (OnIntermediate unset: the reader
@@ -633,6 +648,31 @@ func TestKnownFindings(t *testing.T) {
 		what += fmt.Sprintf("; %d of %d (entry point x length x masked) cases affected, first: %s announced=%d: %s", len(ds), len(f7Cases()), ds[0].Case.Entry, ds[0].Case.Length, ds[0].Symptom)
 	}
 	hx.Probe(t, sigF7, what, len(ds) > 0, ds)
+
+	// ControlHandler.Handle with a header that was not run through ws.CheckHeader
+	var cs []xcase
+	for _, op := range []byte{ref.OpPing, ref.OpPong, ref.OpClose} {
+		for _, l := range lengthTable {
+			for _, m := range []bool{false, true} {
+				cs = append(cs, xcase{Entry: "ControlHandler(unchecked)", Length: l, Masked: m, Op: op})
+			}
+		}
+	}
+	vs := runBatches(t, cs, 14)
+	var us []desc
+	for _, c := range cs {
+		if v, ok := vs[c.key()]; ok && v.bad {
+			us = append(us, desc{c, c.inputDesc(), v.symptom})
+			if len(us) <= 2 {
+				t.Logf("ControlHandler.Handle(unchecked header) op=%#x announced=%d masked=%v: %s", c.Op, c.Length, c.Masked, v.symptom)
+			}
+		}
+	}
+	whatU := "wsutil.ControlHandler.Handle (HandlePing / HandlePong / HandleClose) sizes its buffer by the header's Length: given a control frame header that was not run through ws.CheckHeader (the type's doc calls the check optional) and announces 2^62 or 2^63-1 it panics ('makeslice: len out of range' / pbytes 'argument is too large'), 2^31..2^47 exhaust memory; e.g. header 89 7f 7f ff ff ff ff ff ff ff read with ws.ReadHeader and handed to Handle"
+	if len(us) > 0 {
+		whatU += fmt.Sprintf("; %d of %d (opcode x length x masked) cases affected, first: %s", len(us), len(cs), us[0].Symptom)
+	}
+	hx.Probe(t, sigUnchecked, whatU, len(us) > 0, us)
 }
 
 // TestExtremeLengths: every payload entry point × every extreme announced
